@@ -157,6 +157,9 @@ structure St where
 def init (o c : List Ref) : St :=
   { peerList := o, connList := c, peerCount := o.length }
 
+/-- The daemon before the accept: other peers and other HTTP connections, named by number. -/
+def before (o c : List Nat) : St := init (o.map .other) (c.map .other)
+
 def St.cell (s : St) : Obj → Cell
   | .fd => s.fd
   | .bs => s.bs
